@@ -17,7 +17,8 @@ TRUSTED = [
     "hashlib.sha256 only as the reference the model's own SHA-256 (Model/Sha256.lean) is compared with on every run "
     "(NIST vectors, every length 0..199, random bytes and texts, every generated definition text); a 32-bit prefix can collide",
     "harness/hash_corr.py: tree writer, identity resolver, variant generators, regex readers of the .h/.js/.m outputs",
-    "ruamel.yaml: comments, blank lines, quoting and hex spelling do not reach the loaded values",
+    "ruamel.yaml only as the reference Model/YamlDef.lean: loadDef is compared with (the physical lines of every generated "
+    "definition, decorated at random, loaded by both)",
 ]
 
 
@@ -62,6 +63,8 @@ def _corr_name(d: str) -> str:
         return "corr:M8/sha256-of-text"
     if d.startswith("diff sha256"):
         return "corr:M8/sha256"
+    if d.startswith("diff loader"):
+        return "corr:M8/yaml-loader"
     if d.startswith(("diff hash32", "diff outputs")):
         return "corr:M8/hash32-in-outputs"
     return "corr:M8/rawtext"
@@ -252,7 +255,7 @@ def run(res: C.Result, deep: bool):
     res.extra["corpus_cases"] = len(corpus)
     res.rule = ("corpus; directed pairs; %d seeded definition trees (1-3 files, structs, messages, signals, re-use forms, type "
                 "texts with arrays / blanks / struct references) each with every relocation (same tree again, other "
-                "directories, comments and blank lines 3 ways, own file on top, unrelated definitions added, other "
+                "directories, comments and blank lines 3 fixed ways and twice decorated at random (comment lines at any indentation, trailing comments with ':' '#' quotes, blank lines, trailing blanks, indentation widths, quote styles, hex ids, key order), own file on top, unrelated definitions added, other "
                 "messages removed, hex id, key order, quoted type texts, imports reordered and repeated; re-use spelled out / "
                 "pointed at an identical copy) and every single edit (rename x2, id x2, signal<->message, per field: rename, "
                 "retype, array-ness, type-text spelling, delete; insert at every position, adjacent swaps, names swapped, "
